@@ -13,12 +13,16 @@ From SV Require Import Wire.WireCases Wire.WireBytes Wire.WireLemmas Wire.TableL
 From SV Require Import Generated.Tables.
 
 (** Uniform statement: for EVERY octet string (no bound on its length) and
-    every list of serialisation buffer sizes, outside the recorded finding F5
-    (well-formed frame whose last TLV has an empty value), what the model does
-    satisfies the executable oracle written from the property text. *)
+    every list of serialisation buffer sizes, what the model does satisfies the
+    executable oracle written from the property text.  No finding is excused
+    ([kf_C04] is constantly 0 since F5 was repaired in /repo). *)
 Theorem C04_main : forall (b : bytes) (sizes : list Z),
   bok b ->
   kf_C04 (b, run_C04 b sizes) = 0 -> ok_C04 b (run_C04 b sizes) = true.
+Proof. exact C04_all_kf. Qed.
+
+Theorem C04_main_unconditional : forall (b : bytes) (sizes : list Z),
+  bok b -> ok_C04 b (run_C04 b sizes) = true.
 Proof. exact C04_all. Qed.
 
 (** Nothing past the declared messageLength is read: [decode] is a function
@@ -68,47 +72,37 @@ Proof. exact reencode. Qed.
 Theorem C04_encode_decode : forall m, wf_msg m -> decode (encode_raw m) = ROk m.
 Proof. exact encode_decode. Qed.
 
-(** The decoder accepts exactly the well-formed frames of WireSpec, except
-    (F5) those whose last TLV has an empty value, which it rejects with
-    BufferTooShort; for accepted frames its TLV suffix and TLV iteration are
-    those of the WireSpec framing. *)
+(** The decoder accepts exactly the well-formed frames of WireSpec
+    (soundness and completeness); for accepted frames its TLV suffix and its
+    TLV iteration are those of the WireSpec framing. *)
 Theorem C04_decode_vs_spec : forall b,
   bok b ->
   match decode b with
   | ROk m =>
-      spec_wellformed b = true /\ last_tlv_empty b = false /\
+      spec_wellformed b = true /\
       spec_tlv_area b = m_suffix m /\ spec_tlv_summary b = Some (tlv_summary (m_suffix m))
-  | RErr e =>
-      spec_wellformed b = false \/
-      (spec_wellformed b = true /\ last_tlv_empty b = true /\ e = EBufferTooShort)
+  | RErr _ => spec_wellformed b = false
   end.
 Proof. exact decode_vs_spec. Qed.
 
-(** encode_decode over TLV LISTS needs "the last TLV is not empty" ... *)
+(** encode_decode over arbitrary TLV LISTS (even-length values, empty ones
+    included, in any position): holds without side condition since the repair
+    of F5 (before it, "the last TLV is not empty" was needed). *)
 Theorem C04_encode_decode_tlvs : forall h bd ts,
-  wf_header h -> wf_body bd -> Forall tlv_wf ts -> last_value_nonempty ts ->
+  wf_header h -> wf_body bd -> Forall tlv_wf ts ->
   34 + body_size bd + blen (encode_tlvs ts) < 65536 ->
   decode (encode_raw (mkMsg h bd (encode_tlvs ts))) = ROk (mkMsg h bd (encode_tlvs ts)).
 Proof. exact encode_decode_tlvs. Qed.
 
-(** ... and is refuted without it (F5, known finding 1): a Sync message
-    carrying one PATH_TRACE TLV with an empty value, as the library's own
-    serializer writes it, is rejected by the library's parser. *)
-Theorem C04_encode_decode_tlvs_refuted :
-  let ts := [mkTlv 8 []] in
-  Forall tlv_wf ts /\
-  wire_size (mkMsg (header_new 1) (BSync ts_zero) (encode_tlvs ts)) = 48 /\
-  decode (encode_raw (mkMsg (header_new 1) (BSync ts_zero) (encode_tlvs ts)))
-    = RErr EBufferTooShort.
-Proof. exact encode_decode_tlvs_refuted. Qed.
-
-(** The same witness against the uniform statement without its hypothesis. *)
-Theorem C04_main_refuted :
+(** The former F5 witness (a Sync message with one PATH_TRACE TLV whose value
+    is empty, 48 octets) is now accepted and round-trips. *)
+Theorem C04_f5_repaired :
   octets_ok f5_frame = true /\ spec_wellformed f5_frame = true /\
-  decode f5_frame = RErr EBufferTooShort /\
-  ok_C04 f5_frame (run_C04 f5_frame []) = false /\
-  kf_C04 (f5_frame, run_C04 f5_frame []) = 1.
-Proof. exact f5_refuted. Qed.
+  blen f5_frame = 48 /\
+  decode f5_frame = ROk f5_msg /\
+  tlvs_of (m_suffix f5_msg) = [mkTlv 8 []] /\
+  ok_C04 f5_frame (run_C04 f5_frame [47; 48]) = true.
+Proof. exact f5_accepted. Qed.
 
 (** Enumeration tables regenerated from the Rust sources on every run agree
     with the model on every value (256 / 65536 values, by computation). *)
@@ -146,7 +140,7 @@ Proof. exact canon_accuracy_spec. Qed.
 
 (** Non-vacuity: an Announce frame with flags, a reserved clockAccuracy
     (0x7F), a non-zero reserved octet, two TLVs and two octets of padding is a
-    string of octets, is accepted, is not the known finding, and re-encodes
+    string of octets, is accepted, and re-encodes
     to a frame that differs from the input exactly in the reserved places. *)
 Definition nv_frame : bytes :=
   [ 27; 18; 0; 78; 3; 1; 5; 44;  0; 0; 0; 0; 0; 1; 128; 0;  9; 9; 9; 9;
@@ -158,15 +152,17 @@ Example C04_nonvacuous :
   octets_ok nv_frame = true /\
   kf_C04 (nv_frame, run_C04 nv_frame [0; 77; 78]) = 0 /\
   ok_C04 nv_frame (run_C04 nv_frame [0; 77; 78]) = true /\
-  (exists m, decode nv_frame = ROk m /\
-     encode_raw m =
-     [ 27; 18; 0; 78; 3; 1; 5; 44;  0; 0; 0; 0; 0; 1; 128; 0;  0; 0; 0; 0;
-       1; 2; 3; 4; 5; 6; 7; 8; 0; 1;  18; 52; 5; 253;
-       0; 0; 101; 83; 241; 0; 59; 154; 201; 255;  0; 37; 0; 128; 6; 0; 78; 93; 129;
-       8; 7; 6; 5; 4; 3; 2; 1; 0; 2; 32;
-       0; 8; 0; 2; 170; 187;  0; 3; 0; 4; 1; 2; 3; 4 ]).
+  match decode nv_frame with
+  | ROk m =>
+      bytes_eqb (encode_raw m)
+      [ 27; 18; 0; 78; 3; 1; 5; 44;  0; 0; 0; 0; 0; 1; 128; 0;  0; 0; 0; 0;
+        1; 2; 3; 4; 5; 6; 7; 8; 0; 1;  18; 52; 5; 253;
+        0; 0; 101; 83; 241; 0; 59; 154; 201; 255;  0; 37; 0; 128; 6; 0; 78; 93; 129;
+        8; 7; 6; 5; 4; 3; 2; 1; 0; 2; 32;
+        0; 8; 0; 2; 170; 187;  0; 3; 0; 4; 1; 2; 3; 4 ]
+  | RErr _ => false
+  end = true.
 Proof.
   split; [vm_compute; reflexivity|]. split; [vm_compute; reflexivity|].
-  split; [vm_compute; reflexivity|].
-  eexists. split; vm_compute; reflexivity.
+  split; vm_compute; reflexivity.
 Qed.
